@@ -5,3 +5,6 @@ package bfe_tls
 
 // VerifRemovePadding exposes removePadding to the out-of-tree verification harness (build tag verif).
 func VerifRemovePadding(payload []byte) ([]byte, byte) { return removePadding(payload) }
+
+// VerifRemovePaddingSSL30 exposes removePaddingSSL30 (SSL 3.0: padding contents are not checked).
+func VerifRemovePaddingSSL30(payload []byte) ([]byte, byte) { return removePaddingSSL30(payload) }
